@@ -267,8 +267,25 @@ impl<'w> DocsRun<'w> {
                 };
                 json!({"ev":"Put","d":d,"path":"remote","e":pe,"res":r,"removed":removed})
             }
-            "peer" => {
-                let p = op["p"].as_u64().unwrap() as usize;
+            "peer" | "peerpos" => {
+                let p = if kind == "peer" {
+                    op["p"].as_u64().unwrap() as usize
+                } else {
+                    // a position of the currently remembered list (newest first)
+                    let cur: Vec<usize> = match self.store.as_mut().unwrap().get_sync_peers(&self.t.id(d)) {
+                        Ok(Some(it)) => it.map(|p| w.peer_rank(&p) as usize).collect(),
+                        _ => vec![],
+                    };
+                    if cur.is_empty() {
+                        1
+                    } else {
+                        match op["pos"].as_str().unwrap() {
+                            "oldest" => cur[cur.len() - 1],
+                            "newest" => cur[0],
+                            _ => cur[cur.len() / 2],
+                        }
+                    }
+                };
                 // registrations are ordered by a nanosecond clock in the store
                 std::thread::sleep(std::time::Duration::from_micros(2));
                 let res = self.store.as_mut().unwrap().register_useful_peer(self.t.id(d), w.peers[p - 1]);
@@ -394,6 +411,40 @@ pub fn gen_history(r: &mut Rng, t: &DocTable, len: usize, file: bool) -> Vec<Val
     ops
 }
 
+/// Histories dominated by peer registrations on two documents (C17): every position of the list gets refreshed
+/// (the schedule names list positions; `peerpos` ops are resolved against the observed list at run time).
+pub fn gen_peer_history(r: &mut Rng, t: &DocTable, len: usize, file: bool) -> Vec<Value> {
+    let real = t.real();
+    let mut ops = vec![];
+    for d in &real[..2] {
+        ops.push(json!({"op":"import","d":d,"kind": if r.chance(1,2) {"write"} else {"read"}}));
+    }
+    for _ in 0..len {
+        let d = real[r.below(2)];
+        let x = r.below(100);
+        ops.push(if x < 35 {
+            json!({"op":"peer","d":d,"p":1 + r.below(7)})
+        } else if x < 60 {
+            json!({"op":"peerpos","d":d,"pos":"oldest"})
+        } else if x < 70 {
+            json!({"op":"peerpos","d":d,"pos":"newest"})
+        } else if x < 82 {
+            json!({"op":"peerpos","d":d,"pos":"middle"})
+        } else if x < 88 {
+            json!({"op":"peer","d":1 + r.below(t.n()),"p":1 + r.below(7)})
+        } else if x < 92 {
+            json!({"op":"remove","d":d})
+        } else if x < 95 {
+            json!({"op":"import","d":d,"kind":"read"})
+        } else if file {
+            json!({"op":"reopen"})
+        } else {
+            json!({"op":"peer","d":d,"p":1 + r.below(7)})
+        });
+    }
+    ops
+}
+
 pub fn run(w: &World, seed: u64, rng: &mut Rng, schedules: Vec<Value>, n: usize, dir: &Path, trace: &mut Trace, sum: &mut Summary) {
     let rt = tokio::runtime::Builder::new_current_thread().enable_all().build().unwrap();
     let t = DocTable::new(w);
@@ -404,7 +455,12 @@ pub fn run(w: &World, seed: u64, rng: &mut Rng, schedules: Vec<Value>, n: usize,
     for i in 0..n {
         let file = i % 2 == 0;
         let len = if i % 3 == 0 { 12 } else { 40 };
-        hist.push((gen_history(rng, &t, len, file), file));
+        // every 4th history concentrates on the useful-peer lists
+        if i % 4 == 3 {
+            hist.push((gen_peer_history(rng, &t, 40, file), file));
+        } else {
+            hist.push((gen_history(rng, &t, len, file), file));
+        }
     }
     for (i, (ops, file)) in hist.iter().enumerate() {
         let path = if *file {
